@@ -11,12 +11,81 @@
 //!   save <slot>                   save_to_writer                        -> hdr=<7 bytes hex> len=<n> body=<run-length>
 //!   rt <dst> <src> plain|gz|file|ffi   save -> load into dst            -> <show of dst> same=<dst == src>
 //!   loadraw <dst> <hex>           HyperLogLog::from_reader(bytes)       -> ok | err <Variant> | PANIC
-use sourmash::ffi::hyperloglog::{hll_from_buffer, hll_to_buffer, SourmashHyperLogLog};
-use sourmash::ffi::utils::ForeignObject;
+//!
+//! every way content enters a sketch (histories on empty and non-empty receivers)
+//!   fill <slot> rnd|geo|uni <seed> <n> <dens>   add_hash(gen_hash(mode, p, seed, i)) for the i < n that pass the density filter -> nz=..
+//!   addmany <slot> <h,..>         add_many                              -> nz=..
+//!   addffi <slot> <h,..>          hll_add_hash (C API)                  -> nz=..
+//!   addword <slot> <hex>          add_word(bytes)                       -> nz=..
+//!   addseq <slot> api|ffi <force> <dna>   add_sequence / hll_add_sequence -> ok nz=.. | err <Variant> nz=..
+//!   upd <slot> api|ffi vec|tree <num> <scaled> <track> <h,..>
+//!                                 a fresh KmerMinHash (or KmerMinHashBTree converted into one) receives the
+//!                                 hashes in this order, then `mh.update(&mut hll)` / hll_update_mh -> mins=<#mins> nz=..
+//!   ashll <dst> <num> <scaled> <h,..>   KmerMinHash::as_hll()           -> <digest>
+//!   mergeffi <dst> <src>          hll_merge (C API)                     -> ok | err <Variant>
+//!   dg <slot>                     p=.. q=.. k=.. n=.. nz=.. sum=.. xor=.. fnv=.. first=<8> last=<8>
+//!
+//! persistence through every route (`rtd <dst> <src> <route>` -> <digest of dst> same=<dst == src>)
+//!   vec      save_to_writer into Vec, from_reader(&[u8])
+//!   bufw     save_to_writer into BufWriter<File>, from_path
+//!   path     save(path), from_path                 ffifile  hll_save, hll_from_path (C API, niffler::from_path)
+//!   gz1|gz6|gz9          save_to_writer into niffler's gzip writer over a Vec at that level, from_reader
+//!   gzfile1|gzfile6|gzfile9  the same over a File, from_path
+//!   ffi      hll_to_buffer, hll_from_buffer (C API)
+//!   r1|r7    saved bytes through a reader that hands out 1 / at most 7 bytes per read() call
+//!   gzr7     gzip bytes through the <= 7 bytes reader       br  BufReader with a 16-byte buffer
+//!   w5       save_to_writer into a writer that accepts at most 5 bytes per write() call
+//!   gzw5     niffler gzip writer (level 6) on top of that writer
+use sourmash::encodings::HashFunctions;
+use sourmash::ffi::hyperloglog::{
+    hll_add_hash, hll_add_sequence, hll_from_buffer, hll_from_path, hll_merge, hll_save, hll_to_buffer, hll_update_mh,
+    SourmashHyperLogLog,
+};
+use sourmash::ffi::minhash::SourmashKmerMinHash;
+use sourmash::ffi::utils::{ForeignObject, LAST_ERROR};
+use sourmash::prelude::*;
 use sourmash::signature::SigsTrait;
 use sourmash::sketch::hyperloglog::HyperLogLog;
+use sourmash::sketch::minhash::{max_hash_for_scaled, KmerMinHash, KmerMinHashBTree};
+use std::io::{Read, Write};
 use std::os::raw::c_char;
 use verif_harness::*;
+
+pub fn splitmix64(i: u64) -> u64 {
+    let mut z = i.wrapping_add(0x9E37_79B9_7F4A_7C15);
+    z = (z ^ (z >> 30)).wrapping_mul(0xBF58_476D_1CE4_E5B9);
+    z = (z ^ (z >> 27)).wrapping_mul(0x94D0_49BB_1331_11EB);
+    z ^ (z >> 31)
+}
+
+/// the i-th hash of a `fill` (implemented identically in lean/Driver/C17.lean)
+///   rnd: an arbitrary 64-bit value
+///   geo: bucket i mod 2^p, upper bits random (ranks geometric, as real hashes give)
+///   uni: bucket i mod 2^p, rank uniform over 1..=q+1 (a register array gzip cannot squeeze much)
+fn gen_hash(mode: &str, p: u32, seed: u64, i: u64) -> u64 {
+    let x = splitmix64(seed.wrapping_add(i));
+    let m = 1u64 << p;
+    let b = i & (m - 1);
+    match mode {
+        "rnd" => x,
+        "geo" => (x & !(m - 1)) | b,
+        _ => {
+            let q = 64 - p as u64;
+            let r = 1 + (x >> 8) % (q + 1);
+            if r == q + 1 {
+                b
+            } else {
+                let top = 1u64 << (64 - r);
+                let low = ((x << 17) | (x >> 47)) & (top - 1) & !(m - 1);
+                top | low | b
+            }
+        }
+    }
+}
+
+fn gen_keep(seed: u64, i: u64, dens: u64) -> bool {
+    dens >= 256 || (splitmix64(seed.wrapping_add(i)) & 255) < dens
+}
 
 // ------------------------------------------------------------------------------------ generator
 
@@ -105,6 +174,85 @@ fn emit_adds(o: &mut Out, r: &mut Rng, slot: u32, hs: &[u64]) {
         let n = if r.chance(1, 2) { hs.len() - i } else { r.range(1, (hs.len() - i) as u64) as usize };
         o.op(&format!("add {} {}", slot, show_nats(hs[i..i + n].iter().copied())));
         i += n;
+    }
+}
+
+const ROUTES: [&str; 17] = [
+    "vec", "bufw", "path", "ffifile", "gz1", "gz6", "gz9", "gzfile1", "gzfile6", "gzfile9", "ffi", "r1", "r7", "gzr7", "br", "w5", "gzw5",
+];
+
+/// (num, scaled) of a MinHash: a num sketch or a scaled one, never both
+fn mh_params(r: &mut Rng) -> (u64, u64) {
+    if r.chance(1, 2) {
+        (*r.pick(&[1u64, 2, 5, 20, 100, 500]), 0)
+    } else {
+        (0, *r.pick(&[1u64, 1, 2, 3, 10, 1000, 1 << 20, 1 << 40, u64::MAX]))
+    }
+}
+
+fn mh_hashes(r: &mut Rng, p: u32, scaled: u64) -> Vec<u64> {
+    let mx = max_hash_for_scaled(scaled);
+    let n = match r.below(6) {
+        0 => 0,
+        1 => 1,
+        2..=4 => r.range(2, 40),
+        _ => r.range(40, 300),
+    };
+    let mut v: Vec<u64> = vec![];
+    for _ in 0..n {
+        if !v.is_empty() && r.chance(1, 8) {
+            let d = *r.pick(&v);
+            v.push(d);
+        } else if mx != 0 && r.chance(3, 4) {
+            v.push(match r.below(8) {
+                0 => mx,
+                1 => mx.wrapping_add(1),
+                2 => mx - 1,
+                _ => r.below(mx),
+            });
+        } else {
+            v.push(some_hash(r, p));
+        }
+    }
+    v
+}
+
+/// what the MinHash should hold: the distinct hashes, at most max_hash, the `num` smallest
+fn mins_of(num: u64, scaled: u64, hs: &[u64]) -> Vec<u64> {
+    let mut v = hs.to_vec();
+    v.sort_unstable();
+    v.dedup();
+    let mx = max_hash_for_scaled(scaled);
+    if num == 0 && mx == 0 {
+        return vec![];
+    }
+    if mx != 0 {
+        v.retain(|h| *h <= mx);
+    }
+    if num != 0 {
+        v.truncate(num as usize);
+    }
+    v
+}
+
+fn some_dna(r: &mut Rng, k: u64) -> String {
+    let n = match r.below(6) {
+        0 => r.below(k + 1),
+        1 => k,
+        _ => r.range(k, k + 60),
+    };
+    let bad = r.chance(1, 4);
+    let lower = r.chance(1, 4);
+    let s: String = (0..n)
+        .map(|_| {
+            let c = if bad && r.chance(1, 12) { *r.pick(&[b'N', b'X', b'.', b'U']) } else { *r.pick(b"ACGT") };
+            (if lower && r.chance(1, 2) { c.to_ascii_lowercase() } else { c }) as char
+        })
+        .collect();
+    if s.is_empty() {
+        "-".into()
+    } else {
+        s
     }
 }
 
@@ -278,6 +426,130 @@ fn gen(a: &Args) {
         o.op("eq 6 1");
     }
 
+    // F: every way content enters a sketch, interleaved, on empty and non-empty receivers.
+    // Slot 0 is the sketch under test; slot 6 receives the same content through a different route
+    // (plain add_hash of the MinHash's mins, add_many / hll_add_hash instead of merge, …).
+    for _ in 0..1500 * scale {
+        o.case("history");
+        let p = some_p(&mut r);
+        let k = *r.pick(&[3u64, 4, 7, 11, 21, 31, 32]);
+        o.op(&format!("new 0 {} {}", p, k));
+        o.op(&format!("new 6 {} {}", p, k));
+        let nsteps = r.range(2, 6);
+        for _ in 0..nsteps {
+            match r.below(9) {
+                0 | 1 => {
+                    let hs = multiset(&mut r, p, false);
+                    emit_adds(&mut o, &mut r, 0, &hs);
+                    o.op(&format!("addmany 6 {}", show_nats(hs.iter().copied())));
+                }
+                2..=4 => {
+                    let (num, scaled) = mh_params(&mut r);
+                    let hs = mh_hashes(&mut r, p, scaled);
+                    o.op(&format!(
+                        "upd 0 {} {} {} {} {} {}",
+                        if r.chance(2, 3) { "api" } else { "ffi" },
+                        if r.chance(2, 3) { "vec" } else { "tree" },
+                        num,
+                        scaled,
+                        r.below(2),
+                        show_nats(hs.iter().copied())
+                    ));
+                    let mut mins = mins_of(num, scaled, &hs);
+                    shuffle(&mut r, &mut mins);
+                    o.op(&format!("add 6 {}", show_nats(mins.iter().copied())));
+                }
+                5 => {
+                    let hs = multiset(&mut r, p, false);
+                    o.op(&format!("new 7 {} {}", p, k));
+                    emit_adds(&mut o, &mut r, 7, &hs);
+                    o.op(if r.chance(1, 2) { "merge 0 7" } else { "mergeffi 0 7" });
+                    o.op(&format!("addffi 6 {}", show_nats(hs.iter().copied())));
+                }
+                6 | 7 => {
+                    let s = some_dna(&mut r, k);
+                    let force = r.below(2);
+                    let (a, b) = if r.chance(1, 2) { ("api", "ffi") } else { ("ffi", "api") };
+                    o.op(&format!("addseq 0 {} {} {}", a, force, s));
+                    o.op(&format!("addseq 6 {} {} {}", b, force, s));
+                }
+                _ => {
+                    let n = r.below(40) as usize;
+                    let w: Vec<u8> = (0..n).map(|_| r.next() as u8).collect();
+                    o.op(&format!("addword 0 {}", hex(&w)));
+                    o.op(&format!("addword 6 {}", hex(&w)));
+                }
+            }
+            if r.chance(1, 3) {
+                o.op("show 0");
+            }
+        }
+        o.op("show 0");
+        o.op("show 6");
+        o.op("eq 0 6");
+        o.op("dg 0");
+        if r.chance(1, 3) {
+            o.op(&format!("rtd 1 0 {}", r.pick(&ROUTES)));
+            o.op("eq 1 0");
+        }
+    }
+    // a MinHash with thousands of new hashes pushed into a sketch that is already well filled
+    for _ in 0..(if thorough { 120 } else { 40 }) {
+        o.case("history-big");
+        let p = r.range(6, 12) as u32;
+        let m = 1u64 << p;
+        o.op(&format!("new 0 {} 21", p));
+        o.op(&format!("fill 0 rnd {} {} 256", r.bits(40), r.range(m / 2, 4 * m)));
+        o.op("dg 0");
+        let (num, scaled) = if r.chance(1, 2) { (0, 1) } else { (r.range(500, 3000), 0) };
+        let n = r.range(m, (10 * m).min(if thorough { 8000 } else { 5000 }).max(m));
+        let hs: Vec<u64> = (0..n).map(|_| r.next()).collect();
+        o.op(&format!("upd 0 {} vec {} {} 0 {}", if r.chance(1, 2) { "api" } else { "ffi" }, num, scaled, show_nats(hs.iter().copied())));
+        o.op("dg 0");
+        if p <= 9 {
+            o.op("show 0");
+        }
+        o.op(&format!("ashll 1 {} {} {}", num, scaled, show_nats(hs.iter().copied())));
+    }
+
+    // G: persistence of DENSE sketches, every precision, every route
+    for rep in 0..(if thorough { 3 } else { 1 }) {
+        for p in 4..=18u32 {
+            for content in 0..4 {
+                o.case("persist-all");
+                let m = 1u64 << p;
+                let k = some_k(&mut r);
+                o.op(&format!("new 0 {} {}", p, k));
+                let seed = r.bits(44);
+                match content {
+                    0 => o.op(&format!("fill 0 geo {} {} 256", seed, m)),
+                    1 => o.op(&format!("fill 0 uni {} {} 256", seed, m)),
+                    2 => o.op(&format!("fill 0 {} {} {} {}", if r.chance(1, 2) { "geo" } else { "uni" }, seed, m, r.range(8, 248))),
+                    _ => {
+                        o.op(&format!("fill 0 rnd {} {} 256", seed, r.range(m / 2, 3 * m)));
+                        o.op(&format!("add 0 0,{},{}", m - 1, u64::MAX));
+                    }
+                }
+                o.op("dg 0");
+                if p <= 10 {
+                    o.op("show 0");
+                }
+                for route in ROUTES.iter() {
+                    // the one-byte reader on 2^18 registers is cheap; everything runs at every p
+                    o.op(&format!("rtd 1 0 {}", route));
+                    if rep > 0 && r.chance(1, 4) {
+                        o.op("eq 1 0");
+                    }
+                }
+                o.op("eq 1 0");
+                // a loaded sketch keeps working and saves again
+                o.op(&format!("add 1 {}", show_nats((0..3).map(|_| some_hash(&mut r, p)))));
+                o.op(&format!("rtd 2 1 {}", r.pick(&ROUTES)));
+                o.op("eq 2 1");
+            }
+        }
+    }
+
     // E: malformed files
     o.case("loadraw");
     let base: Vec<u8> = {
@@ -369,6 +641,192 @@ fn show(h: &HyperLogLog) -> String {
     )
 }
 
+/// register digest for the sketches whose register dump would be too long to print
+fn digest_regs(p: u8, q: u8, k: usize, regs: &[u64]) -> String {
+    let nz = regs.iter().filter(|x| **x != 0).count();
+    let sum: u64 = regs.iter().sum();
+    let xor = regs.iter().fold(0u64, |a, x| a ^ x);
+    let fnv = regs.iter().fold(0xcbf2_9ce4_8422_2325u64, |h, x| (h ^ x).wrapping_mul(0x0000_0100_0000_01b3));
+    let n = regs.len();
+    format!(
+        "p={} q={} k={} n={} nz={} sum={} xor={} fnv={:016x} first={} last={}",
+        p,
+        q,
+        k,
+        n,
+        nz,
+        sum,
+        xor,
+        fnv,
+        show_nats(regs[..8.min(n)].iter().copied()),
+        show_nats(regs[n.saturating_sub(8)..].iter().copied())
+    )
+}
+
+fn digest(h: &HyperLogLog) -> String {
+    let bytes = saved(h);
+    digest_regs(bytes[4], bytes[5], h.ksize(), &h.to_vec())
+}
+
+fn nz(h: &HyperLogLog) -> usize {
+    h.to_vec().iter().filter(|x| **x != 0).count()
+}
+
+/// hands out at most `max` bytes per read() call (sizes cycle through 1..=max)
+struct ShortReader {
+    data: Vec<u8>,
+    pos: usize,
+    max: usize,
+    tick: usize,
+}
+impl Read for ShortReader {
+    fn read(&mut self, buf: &mut [u8]) -> std::io::Result<usize> {
+        self.tick += 1;
+        let want = 1 + (self.tick * 5) % self.max;
+        let n = want.min(buf.len()).min(self.data.len() - self.pos);
+        buf[..n].copy_from_slice(&self.data[self.pos..self.pos + n]);
+        self.pos += n;
+        Ok(n)
+    }
+}
+
+/// accepts at most `max` bytes per write() call
+struct ShortWriter {
+    data: Vec<u8>,
+    max: usize,
+    tick: usize,
+}
+impl Write for ShortWriter {
+    fn write(&mut self, buf: &[u8]) -> std::io::Result<usize> {
+        self.tick += 1;
+        let want = 1 + (self.tick * 3) % self.max;
+        let n = want.min(buf.len());
+        self.data.extend_from_slice(&buf[..n]);
+        Ok(n)
+    }
+    fn flush(&mut self) -> std::io::Result<()> {
+        Ok(())
+    }
+}
+
+fn gz_level(n: &str) -> niffler::compression::Level {
+    match n {
+        "1" => niffler::compression::Level::One,
+        "6" => niffler::compression::Level::Six,
+        _ => niffler::compression::Level::Nine,
+    }
+}
+
+fn cstring(s: &str) -> std::ffi::CString {
+    std::ffi::CString::new(s).unwrap()
+}
+
+fn take_ffi_error() -> Option<sourmash::Error> {
+    LAST_ERROR.with(|e| e.borrow_mut().take())
+}
+
+/// save `src` and load it back through one of the routes of the header comment
+fn round_trip(src: &HyperLogLog, route: &str) -> Result<HyperLogLog, sourmash::Error> {
+    let dir = tempfile::Builder::new().prefix("verif-c17-").tempdir().unwrap();
+    let path = dir.path().join(if route.starts_with("gzfile") { "x.hll.gz" } else { "x.hll" });
+    match route {
+        "vec" => HyperLogLog::from_reader(&saved(src)[..]),
+        "bufw" => {
+            {
+                let mut w = std::io::BufWriter::new(std::fs::File::create(&path).unwrap());
+                src.save_to_writer(&mut w)?;
+                w.flush().unwrap();
+            }
+            HyperLogLog::from_path(&path)
+        }
+        "path" => {
+            src.save(&path)?;
+            HyperLogLog::from_path(&path)
+        }
+        "ffifile" => unsafe {
+            let c = cstring(path.to_str().unwrap());
+            hll_save(SourmashHyperLogLog::from_ref(src), c.as_ptr());
+            if let Some(e) = take_ffi_error() {
+                return Err(e);
+            }
+            let p = hll_from_path(c.as_ptr());
+            match take_ffi_error() {
+                Some(e) => Err(e),
+                None => Ok(*SourmashHyperLogLog::into_rust(p)),
+            }
+        },
+        "gz1" | "gz6" | "gz9" | "gzr7" => {
+            let mut buf = vec![];
+            {
+                let lvl = if route == "gzr7" { "6" } else { &route[2..] };
+                let mut w = niffler::get_writer(Box::new(&mut buf), niffler::compression::Format::Gzip, gz_level(lvl))?;
+                src.save_to_writer(&mut w)?;
+            }
+            assert!(buf[0] == 0x1f && buf[1] == 0x8b, "not gzip");
+            if route == "gzr7" {
+                HyperLogLog::from_reader(ShortReader { data: buf, pos: 0, max: 7, tick: 0 })
+            } else {
+                HyperLogLog::from_reader(&buf[..])
+            }
+        }
+        "gzfile1" | "gzfile6" | "gzfile9" => {
+            {
+                let f = std::fs::File::create(&path).unwrap();
+                let mut w = niffler::get_writer(Box::new(f), niffler::compression::Format::Gzip, gz_level(&route[6..]))?;
+                src.save_to_writer(&mut w)?;
+            }
+            HyperLogLog::from_path(&path)
+        }
+        "ffi" => unsafe {
+            let mut size = 0usize;
+            let ptr = hll_to_buffer(SourmashHyperLogLog::from_ref(src), &mut size);
+            if let Some(e) = take_ffi_error() {
+                return Err(e);
+            }
+            let buf = Vec::from_raw_parts(ptr as *mut u8, size, size);
+            let p = hll_from_buffer(buf.as_ptr() as *const c_char, buf.len());
+            match take_ffi_error() {
+                Some(e) => Err(e),
+                None => Ok(*SourmashHyperLogLog::into_rust(p)),
+            }
+        },
+        "r1" => HyperLogLog::from_reader(ShortReader { data: saved(src), pos: 0, max: 1, tick: 0 }),
+        "r7" => HyperLogLog::from_reader(ShortReader { data: saved(src), pos: 0, max: 7, tick: 0 }),
+        "br" => HyperLogLog::from_reader(std::io::BufReader::with_capacity(16, &saved(src)[..])),
+        "w5" => {
+            let mut w = ShortWriter { data: vec![], max: 5, tick: 0 };
+            src.save_to_writer(&mut w)?;
+            HyperLogLog::from_reader(&w.data[..])
+        }
+        "gzw5" => {
+            let mut sw = ShortWriter { data: vec![], max: 5, tick: 0 };
+            {
+                let mut w = niffler::get_writer(Box::new(&mut sw), niffler::compression::Format::Gzip, gz_level("6"))?;
+                src.save_to_writer(&mut w)?;
+            }
+            HyperLogLog::from_reader(&sw.data[..])
+        }
+        _ => panic!("route"),
+    }
+}
+
+/// a KmerMinHash (directly, or converted from a KmerMinHashBTree) that received `hs` in this order
+fn build_mh(kind: &str, num: u64, scaled: u64, track: bool, hs: &[u64]) -> KmerMinHash {
+    if kind == "tree" {
+        let mut t = KmerMinHashBTree::new(scaled, 21, HashFunctions::Murmur64Dna, 42, track, num as u32);
+        for h in hs {
+            t.add_hash(*h);
+        }
+        t.into()
+    } else {
+        let mut v = KmerMinHash::new(scaled, 21, HashFunctions::Murmur64Dna, 42, track, num as u32);
+        for h in hs {
+            v.add_hash(*h);
+        }
+        v
+    }
+}
+
 fn err_name(e: &sourmash::Error) -> String {
     let s = format!("{:?}", e);
     let end = s.find(|c: char| !c.is_alphanumeric()).unwrap_or(s.len());
@@ -401,6 +859,124 @@ fn step(st: &mut St, ws: &[&str]) -> String {
             }
             None => "none".into(),
         },
+        "fill" => match st[slot(1)].as_mut() {
+            Some(h) => {
+                let p = h.size().trailing_zeros();
+                let (seed, n, dens): (u64, u64, u64) = (ws[3].parse().unwrap(), ws[4].parse().unwrap(), ws[5].parse().unwrap());
+                for i in 0..n {
+                    if gen_keep(seed, i, dens) {
+                        h.add_hash(gen_hash(ws[2], p, seed, i));
+                    }
+                }
+                format!("nz={}", nz(h))
+            }
+            None => "none".into(),
+        },
+        "addmany" => match st[slot(1)].as_mut() {
+            Some(h) => {
+                h.add_many(&parse_nats(ws[2])).unwrap();
+                format!("nz={}", nz(h))
+            }
+            None => "none".into(),
+        },
+        "addffi" => match st[slot(1)].as_mut() {
+            Some(h) => {
+                let ptr = h as *mut HyperLogLog as *mut SourmashHyperLogLog;
+                for x in parse_nats(ws[2]) {
+                    unsafe { hll_add_hash(ptr, x) };
+                }
+                assert!(take_ffi_error().is_none());
+                format!("nz={}", nz(h))
+            }
+            None => "none".into(),
+        },
+        "addword" => match st[slot(1)].as_mut() {
+            Some(h) => {
+                h.add_word(&unhex(ws[2]));
+                format!("nz={}", nz(h))
+            }
+            None => "none".into(),
+        },
+        "addseq" => match st[slot(1)].as_mut() {
+            Some(h) => {
+                let seq: &[u8] = if ws[4] == "-" { b"" } else { ws[4].as_bytes() };
+                let force = ws[3] == "1";
+                let res = if ws[2] == "ffi" {
+                    unsafe {
+                        hll_add_sequence(h as *mut HyperLogLog as *mut SourmashHyperLogLog, seq.as_ptr() as *const c_char, seq.len(), force);
+                    }
+                    match take_ffi_error() {
+                        Some(e) => Err(e),
+                        None => Ok(()),
+                    }
+                } else {
+                    h.add_sequence(seq, force)
+                };
+                match res {
+                    Ok(()) => format!("ok nz={}", nz(h)),
+                    Err(e) => format!("{} nz={}", err_name(&e), nz(h)),
+                }
+            }
+            None => "none".into(),
+        },
+        "upd" => match st[slot(1)].as_mut() {
+            Some(h) => {
+                let mh = build_mh(ws[3], ws[4].parse().unwrap(), ws[5].parse().unwrap(), ws[6] == "1", &parse_nats(ws[7]));
+                if ws[2] == "ffi" {
+                    unsafe { hll_update_mh(h as *mut HyperLogLog as *mut SourmashHyperLogLog, SourmashKmerMinHash::from_ref(&mh)) };
+                    if let Some(e) = take_ffi_error() {
+                        return err_name(&e);
+                    }
+                } else if let Err(e) = mh.update(h) {
+                    return err_name(&e);
+                }
+                format!("mins={} nz={}", mh.mins().len(), nz(h))
+            }
+            None => "none".into(),
+        },
+        "ashll" => {
+            let mh = build_mh("vec", ws[2].parse().unwrap(), ws[3].parse().unwrap(), false, &parse_nats(ws[4]));
+            let h = mh.as_hll();
+            let r = digest(&h);
+            st[slot(1)] = Some(h);
+            r
+        }
+        "mergeffi" => {
+            let (d, s) = (slot(1), slot(2));
+            let src = match st[s].clone() {
+                Some(x) => x,
+                None => return "none".into(),
+            };
+            match st[d].as_mut() {
+                Some(dst) => {
+                    unsafe { hll_merge(dst as *mut HyperLogLog as *mut SourmashHyperLogLog, SourmashHyperLogLog::from_ref(&src)) };
+                    match take_ffi_error() {
+                        Some(e) => err_name(&e),
+                        None => "ok".into(),
+                    }
+                }
+                None => "none".into(),
+            }
+        }
+        "dg" => match st[slot(1)].as_ref() {
+            Some(h) => digest(h),
+            None => "none".into(),
+        },
+        "rtd" => {
+            let src = match st[slot(2)].clone() {
+                Some(x) => x,
+                None => return "none".into(),
+            };
+            st[slot(1)] = None;
+            match round_trip(&src, ws[3]) {
+                Ok(h) => {
+                    let r = format!("{} same={}", digest(&h), h == src);
+                    st[slot(1)] = Some(h);
+                    r
+                }
+                Err(e) => err_name(&e),
+            }
+        }
         "show" => match st[slot(1)].as_ref() {
             Some(h) => show(h),
             None => "none".into(),
